@@ -45,6 +45,10 @@ class Facts:
             # normalise the three std facade crates to one spelling so rules can say `std::`
             raw = re.sub(r'(?<![A-Za-z0-9_:])(core|alloc)::', 'std::', raw)
             self._crates[name] = json.loads(raw)
+            if os.environ.get("FV_NO_PARAM_ALIAS") != "1":
+                self.aliased = getattr(self, "aliased", 0) + alias_params(self._crates[name]["fns"])
+            if os.environ.get("FV_NO_THREAD") != "1":
+                self.threaded = getattr(self, "threaded", 0) + sum(thread_flags(f) for f in self._crates[name]["fns"].values())
         return self._crates[name]
 
     def fns(self, crate):
@@ -232,6 +236,117 @@ def pp_fn(name, f, out=sys.stdout, locals_=True):
 # ----------------------------------------------------------------------------
 # CFG
 
+_PARAMS = None
+
+
+def alias_params(fns):
+    """Read renamed parameters under their reviewed names (tables/param_names.json, see tools/mk_param_table.py): a
+    parameter is identified by position; only when every parameter type is unchanged. Returns the number of functions
+    aliased."""
+    global _PARAMS
+    if _PARAMS is None:
+        p = os.path.join(os.path.dirname(os.path.dirname(os.path.abspath(__file__))), "tables", "param_names.json")
+        _PARAMS = json.load(open(p)) if os.path.exists(p) else {}
+    n = 0
+    for name, f in fns.items():
+        row = _PARAMS.get(name)
+        if not row or len(row) != f.get("argc", 0):
+            continue
+        if any(f["locals"][l] != row[l - 1][1] for l in range(1, f["argc"] + 1)):
+            continue
+        cur = {}
+        for nm, pl in f.get("dbg", []):
+            if len(pl) == 1 and 1 <= pl[0] <= f["argc"]:
+                cur.setdefault(pl[0], nm)
+        ren = {l: row[l - 1][0] for l in range(1, f["argc"] + 1) if row[l - 1][0] and cur.get(l) and cur.get(l) != row[l - 1][0]}
+        if not ren:
+            continue
+        for ent in f["dbg"]:
+            if len(ent[1]) == 1 and ent[1][0] in ren:
+                ent[0] = ren[ent[1][0]]
+        f.pop("_dbgmap", None)
+        n += 1
+    return n
+
+
+def thread_flags(f):
+    """Jump threading over boolean flags. `let ok = a <= pc && pc < b; if ok {..}`, `matches!(..)` and
+    `let found = ..; if found` lower to arms that store a constant / a comparison into a flag local and then meet in a
+    join block that only copies the flag and switches on it. The join block is tail-duplicated into every
+    goto-predecessor that assigns the flag (with fresh locals, the flag's local definition propagated into the copy,
+    and the switch folded when the flag is a constant there), so that every rule sees the comparison as the branch
+    condition — exactly as if the condition had been written inside the `if`. Semantics-preserving (tail duplication);
+    returns the number of predecessor edges threaded."""
+    bbs = f["bbs"]
+    preds = defaultdict(list)
+    for i, bb in enumerate(bbs):
+        if bb.get("cu"):
+            continue
+        for x in succs(bb):
+            preds[x].append(i)
+    done = 0
+    for j in range(1, len(bbs)):
+        J = bbs[j]
+        if J.get("cu") or J["t"][0] != "switch" or J["t"][1][0] == "k" or len(J["t"][1][1]) != 1:
+            continue
+        if len(preds[j]) < 2 or len(J["s"]) > 3:
+            continue
+        if not all(x[0] == "=" and len(x[1]) == 1 and x[2][0] == "use" and (x[2][1][0] == "k" or len(x[2][1][1]) == 1) for x in J["s"]):
+            continue
+        # the flag: chase the switch operand back through J's copies
+        flag = J["t"][1][1][0]
+        for x in reversed(J["s"]):
+            if x[1] == [flag] and x[2][1][0] != "k":
+                flag = x[2][1][1][0]
+        for p in preds[j]:
+            P = bbs[p]
+            if p == j or P["t"] != ["goto", j]:
+                continue
+            env = {}
+            for x in P["s"]:
+                if x[0] == "=" and len(x[1]) == 1:
+                    env[x[1][0]] = x[2]
+            if flag not in env or env[flag][0] not in ("use", "bin", "un", "disc"):
+                continue
+            ren = {}
+            stmts = []
+            for x in J["s"]:
+                d = x[1][0]
+                nd = len(f["locals"])
+                f["locals"].append(f["locals"][d] if d < len(f["locals"]) else "?")
+                src = x[2][1]
+                if src[0] != "k" and src[1][0] in ren:
+                    src = [src[0], [ren[src[1][0]]]]
+                if src[0] != "k" and src[1][0] in env:
+                    rv = json.loads(json.dumps(env[src[1][0]]))
+                else:
+                    rv = ["use", src]
+                ren[d] = nd
+                env[nd] = rv
+                stmts.append(["=", [nd], rv, x[3] if len(x) > 3 else None])
+            t = J["t"]
+            sw = t[1][1][0]
+            nsw = ren.get(sw, sw)
+            rv = env.get(nsw)
+            const = None
+            if rv is not None and rv[0] == "use" and rv[1][0] == "k" and isinstance(rv[1][1].get("v"), int):
+                const = rv[1][1]["v"]
+            P["s"] = P["s"] + stmts
+            if const is not None:
+                tgt = t[3]
+                for v, b in t[2]:
+                    if v == const:
+                        tgt = b
+                P["t"] = ["goto", tgt]
+            else:
+                P["t"] = ["switch", [t[1][0], [nsw]], [list(x) for x in t[2]], t[3]] + list(t[4:])
+            done += 1
+    if done:
+        for k in ("_defs", "_dbgmap"):
+            f.pop(k, None)
+    return done
+
+
 def succs(bb):
     """Normal-flow successors of a block (unwind edges are not recorded in facts)."""
     t = bb["t"]
@@ -393,6 +508,41 @@ def callee_matches(c, rx):
     if isinstance(rx, str):
         rx = re.compile(rx)
     return bool(rx.search(c.get("res") or "") or rx.search(c["def"]))
+
+
+def family(F, n, module_prefix, depth=2):
+    """`n`, its closures, and the functions of the same module it calls (transitively, bounded) with their closures:
+    the unit over which a formula is looked for, so that extracting part of it into a private helper does not hide it."""
+    out, todo = {}, [(n, 0)]
+    while todo:
+        m, d = todo.pop()
+        if m in out:
+            continue
+        g = F.fn(m)
+        if g is None:
+            continue
+        out[m] = g
+        for cn, cf in F.find("^" + re.escape(m) + r"::\{closure#\d+\}", None, required=False):
+            out[cn] = cf
+            todo.append((cn, d))
+        if d < depth:
+            for i, c, args, *_ in calls(g):
+                cn = callee_name(c)
+                if cn.startswith(module_prefix) and cn not in out:
+                    todo.append((cn, d + 1))
+    return out
+
+
+def converts_to(c, target_rx):
+    """Callee record `c` is a `From::from` / `.into()` conversion whose target type matches `target_rx`
+    (`x.into()` resolves to the blanket `<T as Into<U>>::into`, `U::from(x)` to the From impl: same conversion)."""
+    d = c.get("def", "") if isinstance(c, dict) else ""
+    ga = c.get("ga") or []
+    if d.endswith("convert::Into::into"):
+        return len(ga) >= 2 and re.search(target_rx, ga[1]) is not None
+    if d.endswith("convert::From::from"):
+        return re.search(target_rx, c.get("self") or "") is not None or (ga and re.search(target_rx, ga[0]) is not None) or re.search("From<.*> for .*" + target_rx + "|" + target_rx + ".* as std::convert::From", callee_name(c)) is not None
+    return False
 
 
 def call_blocks(f, rx):
@@ -782,7 +932,7 @@ def dbg_name(f, local):
     return nm.get(local)
 
 
-_DESC = {"canon": False, "F": None, "cdepth": 0}
+_DESC = {"canon": False, "F": None, "cdepth": 0, "argnames": False}
 
 
 def describe_place(f, p):
@@ -792,7 +942,7 @@ def describe_place(f, p):
     l = p[0]
     name = dbg_name(f, l)
     if 0 < l <= f["argc"]:
-        if _DESC["canon"] and name != "self":
+        if _DESC["canon"] and name != "self" and not _DESC["argnames"]:
             base = "arg:p%d" % l
         else:
             base = "arg:%s" % (name or ("#%d" % l))
@@ -871,6 +1021,10 @@ def describe(f, o, depth=10, through=TRANSPARENT):
     if r[0] == "const":
         return kdesc(f, r[1])
     if r[0] == "call":
+        if _DESC.get("inline") and depth > 6:
+            inl = _inline_call(f, r, depth, through)
+            if inl is not None:
+                return inl
         inner = ",".join(describe(f, a, depth - 3, through) for a in r[2]) if depth > 3 else "…"
         suffix = ""
         for e in (r[4] if len(r) > 4 else []) + p[1:]:
@@ -906,6 +1060,61 @@ def describe(f, o, depth=10, through=TRANSPARENT):
     return "?"
 
 
+class inline_mode:
+    """Within this context describe() reads through calls to small straight-line helpers whose name matches `rx`:
+    `pc.saturating_add(self.offset_bytes())` is described as if the body of offset_bytes() were written in place
+    (parameters substituted by the arguments). Used by formula rules so that extracting a sub-expression into a
+    private helper does not change the formula that is read."""
+
+    def __init__(self, F, rx):
+        self.F, self.rx = F, rx
+
+    def __enter__(self):
+        self.old = (_DESC.get("inline"), _DESC.get("F"))
+        _DESC["inline"] = self.rx
+        _DESC["F"] = self.F
+
+    def __exit__(self, *a):
+        _DESC["inline"], _DESC["F"] = self.old
+
+
+def _inline_call(f, r, depth, through):
+    c = r[1]
+    if not isinstance(c, dict) or "def" not in c:
+        return None
+    name = callee_name(c)
+    if not re.search(_DESC["inline"], name):
+        return None
+    F = _DESC.get("F")
+    g = F.fn(name) if F is not None else None
+    if g is None or g is f or g.get("kind") == "Closure" or len(r[2]) != g.get("argc", -1):
+        return None
+    live = [bb for bb in g["bbs"] if not bb.get("cu")]
+    if len(live) > 14 or any(bb["t"][0] in ("switch", "assert") for bb in live):
+        return None            # only straight-line bodies
+    rets = [describe(g, rv[1], depth - 3, through) for i, j, p, rv, line in assignments(g) if p == [0] and rv[0] == "use"]
+    rets += ["call:%s(%s)" % (callee_name(c2).rsplit("::", 1)[-1], ",".join(describe(g, a, depth - 3, through) for a in a2))
+             for i, c2, a2, dest, *_ in calls(g) if dest == [0]]
+    rets += [describe(g, ["cp", [0]], depth - 3, through)] if not rets else []
+    if len(rets) != 1 or rets[0] in ("tmp", "?"):
+        return None
+    out = rets[0]
+    # substitute parameters (longest names first so that `arg:a` does not clobber `arg:ab`)
+    subs = []
+    for li in range(1, g["argc"] + 1):
+        nm = dbg_name(g, li)
+        subs.append(("arg:%s" % (nm or ("#%d" % li)), describe(f, r[2][li - 1], depth - 3, through)))
+    for k, v in sorted(subs, key=lambda kv: -len(kv[0])):
+        out = re.sub(re.escape(k) + r"(?![A-Za-z0-9_])", lambda m: v, out)
+    suffix = ""
+    for e in (r[4] if len(r) > 4 else []):
+        if isinstance(e, list) and e[0] == "f":
+            suffix += "." + (e[2] if e[2] else str(e[1]))
+        elif isinstance(e, list) and e[0] == "d":
+            suffix += "@" + e[1]
+    return out + suffix
+
+
 def _describe_defs(f, place, depth, through):
     """Canonical mode: a local with several definitions (pattern binding of several match arms, a `mut` accumulator)
     is described by the alternatives of what is assigned to it instead of by its name."""
@@ -933,6 +1142,123 @@ def _describe_defs(f, place, depth, through):
         return ("alt(" + "|".join(alts) + ")") if alts else ""
     finally:
         stack.pop()
+
+
+COMMUTATIVE = {"Eq", "Ne", "Add", "Mul", "BitAnd", "BitOr", "BitXor", "AddWithOverflow", "MulWithOverflow",
+               "call:saturating_add", "call:saturating_mul", "call:checked_add", "call:checked_mul", "call:wrapping_add", "call:wrapping_mul",
+               "call:overflowing_add", "call:overflowing_mul", "call:min", "call:max", "call:eq", "call:ne"}
+MIRROR = {"Lt": "Gt", "Gt": "Lt", "Le": "Ge", "Ge": "Le", "call:lt": "call:gt", "call:gt": "call:lt", "call:le": "call:ge", "call:ge": "call:le"}
+UNWRAP_HEADS = {"call:branch", "call:ok", "call:map_err", "call:ok_or", "call:ok_or_else", "call:from", "call:into", "call:clone", "call:copied", "call:cloned",
+                "call:as_ref", "call:deref", "call:borrow", "call:to_owned"}
+CONV_HEADS = {"call:try_into", "call:try_from"}
+PLUMB_SUFFIX = re.compile(r"^(@Ok(\.0)?|@Some(\.0)?|@Continue(\.0)?)+")
+
+
+def _parse_desc(d):
+    """describe() string -> tree: (head, [children], suffix) for `head(a,b,..)suffix`, else the string."""
+    i = d.find("(")
+    if i <= 0 or not re.match(r"^[A-Za-z_][A-Za-z0-9_:]*$", d[:i]):
+        return d
+    depth = 0
+    parts, cur, end = [], "", None
+    for k in range(i, len(d)):
+        c = d[k]
+        if c in "([{":
+            depth += 1
+            if depth == 1:
+                continue
+        elif c in ")]}":
+            depth -= 1
+            if depth == 0:
+                parts.append(cur)
+                end = k
+                break
+        elif c == "," and depth == 1:
+            parts.append(cur)
+            cur = ""
+            continue
+        cur += c
+    if end is None or "(" in d[end + 1:] or "," in d[end + 1:]:
+        return d
+    return (d[:i], [_parse_desc(p) for p in parts], d[end + 1:])
+
+
+def _unparse(t):
+    return t if isinstance(t, str) else "%s(%s)%s" % (t[0], ",".join(_unparse(c) for c in t[1]), t[2])
+
+
+def simplify_desc(desc):
+    """describe() string with Result/Option/Try plumbing removed: `branch(x)`, `ok(x)`, `map_err(x, f)`, `ok_or(x, e)`,
+    `x.into()`, `.clone()` become x; `try_into(x)` / `try_from(x)` become `conv(x)`; `@Ok.0` / `@Some.0` / `@Continue.0`
+    projections are dropped. So `u64::try_from(v).ok()?` and `match u64::try_from(v) { Ok(v) => v, .. }` read the same."""
+    def simp(t):
+        if isinstance(t, str):
+            return PLUMB_SUFFIX.sub("", t) if "@" in t else t
+        head, ch, suf = t
+        ch = [simp(c) for c in ch]
+        suf = PLUMB_SUFFIX.sub("", suf)
+        if head in UNWRAP_HEADS and ch:
+            inner = ch[0]
+            if isinstance(inner, str):
+                return inner + suf
+            return (inner[0], inner[1], inner[2] + suf)
+        if head in CONV_HEADS and ch:
+            return ("conv", [ch[0]], suf)
+        return (head, ch, suf)
+    return _unparse(simp(_parse_desc(desc)))
+
+
+def flatten_terms(desc, head="call:saturating_add"):
+    """Operands of a (nested, either-side) chain of the associative-commutative operator `head`."""
+    t = _parse_desc(desc)
+
+    def fl(t):
+        if not isinstance(t, str) and t[0] == head and len(t[1]) == 2 and not t[2]:
+            return fl(t[1][0]) + fl(t[1][1])
+        return [_unparse(t)]
+    return fl(t)
+
+
+def commuted_variants(desc, limit=256):
+    """All spellings of a describe() expression under operand swaps of commutative operators / methods and mirrored
+    comparisons (`Eq(a,b)`=`Eq(b,a)`, `Gt(a,b)`=`Lt(b,a)`, `a.saturating_add(b)`=`b.saturating_add(a)`): a rule
+    pattern is matched against each."""
+    def var(t):
+        if isinstance(t, str):
+            return [t]
+        head, ch, suf = t
+        kids = [var(c) for c in ch]
+        out = []
+
+        def prod(i, acc):
+            if len(out) >= limit:
+                return
+            if i == len(kids):
+                out.append((head, list(acc), suf))
+                if len(acc) == 2 and head in COMMUTATIVE:
+                    out.append((head, [acc[1], acc[0]], suf))
+                elif len(acc) == 2 and head in MIRROR:
+                    out.append((MIRROR[head], [acc[1], acc[0]], suf))
+                return
+            for k in kids[i]:
+                prod(i + 1, acc + [k])
+        prod(0, [])
+        return out
+    seen = []
+    for v in var(_parse_desc(desc)):
+        u = _unparse(v)
+        if u not in seen:
+            seen.append(u)
+    return seen[:limit]
+
+
+def match_commuted(rx, desc, simplify=False):
+    """re.search(rx, v) for some commuted spelling v of desc (first match) else None."""
+    for v in commuted_variants(simplify_desc(desc) if simplify else desc):
+        m = re.search(rx, v)
+        if m:
+            return m
+    return None
 
 
 CMP_REGION = {
@@ -1000,6 +1326,20 @@ def guards(f):
             out.append({"bb": i, "op": rv[1], "a": rv[2], "b": rv[3],
                         "a_desc": describe(f, rv[2]), "b_desc": describe(f, rv[3]),
                         "t": t, "f": fl, "line": bb["t"][4]})
+    return out
+
+
+def comparisons(f):
+    """Every integer comparison computed in f, whether branched on or used as a value (`a <= x && x <= b` as the
+    returned expression computes its second comparison into the result): [{bb, op, a, b, a_desc, b_desc}]."""
+    out = []
+    for i, j, p, rv, line in assignments(f):
+        if rv[0] == "bin" and rv[1] in CMP_REGION:
+            out.append({"bb": i, "op": rv[1], "a": rv[2], "b": rv[3], "a_desc": describe(f, rv[2]), "b_desc": describe(f, rv[3]), "line": line})
+    for i, c, args, dest, tgt, line in calls(f):
+        m = re.search(r"cmp::Partial(?:Ord|Eq)(?:<[^>]*>)?(?:>)?::(lt|le|gt|ge|eq|ne)$", c.get("def", "")) if isinstance(c, dict) else None
+        if m and len(args) == 2:
+            out.append({"bb": i, "op": m.group(1).capitalize(), "a": args[0], "b": args[1], "a_desc": describe(f, args[0]), "b_desc": describe(f, args[1]), "line": line})
     return out
 
 
@@ -1179,6 +1519,9 @@ def _guard_at(f, cfg, d, sides):
     """Descriptor of the switch terminating block `d`, for the successor set `sides` that leads to the site."""
     t = f["bbs"][d]["t"]
     tt = bool_switch_targets(t)
+    adt = switch_disc_adt(f, d)
+    if adt is not None:
+        tt = None       # `let Some(x) = e else {..}` switches {0 -> else, _ -> some}: an enum test, not a boolean
     if tt:
         on_true = tt[0] in sides
         for g in guards(f):
@@ -1196,6 +1539,8 @@ def _guard_at(f, cfg, d, sides):
         return {"kind": "bool", "bb": d, "when": (not on_true) if neg else on_true, "tokens": leaves(desc)}
     desc = describe(f, t[1], depth=30)
     vals = sorted(str(v) for v, tg in t[2] if tg in sides) + (["_"] if t[3] in sides else [])
+    if adt is not None and str(adt).endswith(PLUMBING_ADTS) and vals == ["_"] and len(t[2]) == 1 and t[2][0][0] in (0, 1):
+        vals = [str(1 - t[2][0][0])]          # two-variant Option / Result / ControlFlow: `_` is the other variant
     return {"kind": "disc", "bb": d, "values": vals, "tokens": leaves(desc)}
 
 
@@ -1332,15 +1677,24 @@ LAZY_COMBINATORS = {"ok_or_else": "none-of", "map_err": "err-of", "unwrap_or_els
 class canon_mode:
     """Within this context describe() is name-free and follows closures (needs the Facts to find closure bodies)."""
 
-    def __init__(self, F):
+    def __init__(self, F, argnames=False):
         self.F = F
+        self.argnames = argnames
 
     def __enter__(self):
         self.old = dict(_DESC)
-        _DESC.update(canon=True, F=self.F)
+        _DESC.update(canon=True, F=self.F, argnames=self.argnames)
 
     def __exit__(self, *a):
         _DESC.update(self.old)
+
+
+def describe_nf(F, f, o, depth=24):
+    """describe() that does not use names of locals: a local with several definitions (a pattern binding shared by
+    several match arms, a `let x = if .. {a} else {b}`) reads `alt(<def 1>|<def 2>|..)`; parameter names are kept.
+    Rules use it to recognise a variable by what flows into it instead of by what it is called."""
+    with canon_mode(F, argnames=True):
+        return describe(f, o, depth=depth)
 
 
 def is_op_token(t):
@@ -1482,7 +1836,14 @@ def site_guard(F, n, f, cfg, block, value_local=None, value_rx=None):
                 for g in gs:
                     g["ctx"] = _clean(toks)
         if value_local is not None or value_rx is not None:
-            al = forward_aliases(f, [value_local], through_calls=None) if value_local is not None else set()
+            al = forward_aliases(f, [value_local]) if value_local is not None else set()
+            grew = True
+            while grew and al:          # the error value wrapped into an outer error (`CheckError::Validity(e)`) is still the value
+                grew = False
+                for i_, j_, p_, rv_, line_ in assignments(f):
+                    if len(p_) == 1 and p_[0] not in al and rv_[0] == "agg" and any(o[0] != "k" and o[1][0] in al and len(o[1]) == 1 for o in rv_[3]):
+                        al |= forward_aliases(f, [p_[0]])
+                        grew = True
             for bi, c, args, dest, tgt, l in calls(f):
                 if callee_matches(c, r"Option::<T>::ok_or$") and len(args) == 2 and bi in cfg.reachable_incl(block):
                     p = op_place(args[1])
